@@ -121,5 +121,9 @@ theorem C07_error_output_is_prefix (src : Source) (he : src.endsWithError = true
     (copyChunked src).1 ++ terminator = (copyChunked { src with endsWithError := false }).1 := by
   simp [copyChunked, he]
 
+/-- Non-vacuity: a complete two-chunk output cut one byte before its end is not accepted; the whole is. -/
+example : decode ((copyChunked { pieces := [[104, 105], [33]] }).1.take 14) = .incomplete ∧
+    decode (copyChunked { pieces := [[104, 105], [33]] }).1 = .complete [104, 105, 33] [] := by decide
+
 end C07
 end Servlin
